@@ -9,6 +9,8 @@ import (
 	"golang.org/x/tools/go/ssa"
 )
 
+var sortSeq int
+
 type modelFn func(ex *Exec, st *State, fr *Frame, fn *ssa.Function, args []Value, pos token.Pos) Value
 
 var models = map[string]modelFn{}
@@ -72,6 +74,50 @@ func init() {
 	}
 	models["errors.New"] = newErr
 	models["fmt.Errorf"] = newErr
+	// sort.Slice(x, less): the elements of x are permuted (an explicit bijection) and afterwards no
+	// later element is less than an earlier one. less is evaluated as a pure function of two indices
+	// over the permuted slice; it is not given the chance to write anything.
+	models["sort.Slice"] = func(ex *Exec, st *State, fr *Frame, fn *ssa.Function, a []Value, pos token.Pos) Value {
+		iv, ok := a[0].(IfaceV)
+		cl, ok2 := a[1].(*ClosureV)
+		var slT types.Type
+		if ok && iv.Tag.IsInt() {
+			slT = tags.byTag[iv.Tag.Int.Int64()]
+		}
+		sl, ok3 := under(slT).(*types.Slice)
+		if !ok || !ok2 || slT == nil || !ok3 || len(comps(sl.Elem())) != 1 {
+			ex.unknownCall(st, fr, "sort.Slice on an unsupported argument", fn.Signature, a, nil, true)
+			return TupleV{}
+		}
+		ex.note("sort.Slice modelled as a sorted permutation in " + specName(fr.Fn))
+		sv := ex.unbox(st, iv, slT).(SliceV)
+		et := sl.Elem()
+		cp := comps(et)[0]
+		if !st.Fresh[sv.Arr] {
+			ex.checkFrameElem(st, &PtrV{Root: RElem, Arr: sv.Arr, Idx: sv.Off, Elem: et}, pos, Lt(Zero, sv.Len))
+		}
+		cls := "[]" + typeName(et) + cp.Suffix
+		h := st.heapGet(cls, heapSort(2, cp.Sort))
+		nh := Fresh("H:"+cls, h.Sort)
+		sortSeq++
+		pi := func(t *Term) *Term { return UF(fmt.Sprintf("perm!%d", sortSeq), SInt, t) }
+		ip := func(t *Term) *Term { return UF(fmt.Sprintf("perminv!%d", sortSeq), SInt, t) }
+		k := Fresh("k", SInt)
+		ar := Fresh("a", SInt)
+		in := func(t *Term) *Term { return And(Le(Zero, t), Lt(t, sv.Len)) }
+		st.assume(Forall([]*Term{ar}, Implies(Neq(ar, sv.Arr), Eq(Select(nh, ar), Select(h, ar)))))
+		st.assume(Forall([]*Term{k}, Implies(Or(Lt(k, sv.Off), Le(Add(sv.Off, sv.Len), k)), Eq(Select(Select(nh, sv.Arr), k), Select(Select(h, sv.Arr), k)))))
+		st.assume(Forall([]*Term{k}, Implies(in(k), And(in(pi(k)), Eq(Select(Select(nh, sv.Arr), Add(sv.Off, k)), Select(Select(h, sv.Arr), Add(sv.Off, pi(k)))), Eq(ip(pi(k)), k)))))
+		st.assume(Forall([]*Term{k}, Implies(in(k), And(in(ip(k)), Eq(pi(ip(k)), k)))))
+		st.heapSet(cls, nh)
+		// sortedness over the permuted slice
+		qi, qj := Fresh("q_si", SInt), Fresh("q_sj", SInt)
+		res := ex.evalPureFn(st, cl.Fn, []Value{Scalar{qj}, Scalar{qi}}, cl.Bind...)
+		if r, ok := res.(Scalar); ok && r.T.Sort == SBool {
+			st.assume(Forall([]*Term{qi, qj}, Implies(And(Le(Zero, qi), Lt(qi, qj), Lt(qj, sv.Len)), Not(r.T))))
+		}
+		return TupleV{}
+	}
 	models["math/rand.Intn"] = func(ex *Exec, st *State, fr *Frame, fn *ssa.Function, a []Value, pos token.Pos) Value {
 		n := a[0].(Scalar).T
 		ex.emit(st, "safety", ex.srcLabel(fr.Fn, pos, "rand.Intn"), Lt(Zero, n), pos, []string{"C17"})
